@@ -258,6 +258,9 @@ impl Property for C16 {
     fn id(&self) -> &'static str {
         "C16"
     }
+    fn hang_is_violation(&self) -> bool {
+        true
+    }
     fn rule(&self) -> String {
         "exhaustive: every edge set (self-loops included) over <=3 files (thorough: <=4, all 65536) x 7 variants {plain, +missing includes (at the end of the root; first in every other file, with the same extent as the root's first include), last file only in INCLUDE_DIR, last file in both directory and INCLUDE_DIR, every include written twice, root's includes nested in a block (let / foreach / if / a foreach inside a multiclass, by graph), two directories that each hold their own common.td included everywhere by the same text}; quick adds 3000 sampled 4-file graphs; thorough adds random graphs over 5..8 files. Each file = class K<i>; its include statements; one def per included file using that file's class. Oracle: set_root_file + index terminate (traversal budget), keys(diagnostics()) = reference reachable set, document links = one per resolvable include statement on its string literal with the reference target, a diagnostic on each unresolvable include and none elsewhere, each declaration once in its file's outline, references(K<j>) = its uses in every reachable includer. distinct = digest; non-trivial = the graph has a cycle or a diamond, or the variant is not plain".into()
     }
